@@ -95,13 +95,23 @@ def regenerate(log):
 
 
 def build_harness(race, log):
+    """with the library's observation hooks (build tag verif); if the hook file does not compile against this tree
+    (an internal signature changed), without them: the hook-based correspondences are then skipped, nothing else"""
     name = "run_race" if race else "run"
-    cmd = ["go", "build"] + (["-race"] if race else []) + ["-tags", "verif", "-o", "bin/" + name, "./cmd/run"]
-    rc, out = sh(cmd, cwd=HARN, env=GOENV)
+    base = ["go", "build"] + (["-race"] if race else [])
+    rc, out = sh(base + ["-tags", "verif", "-o", "bin/" + name, "./cmd/run"], cwd=HARN, env=GOENV)
+    if rc != 0:
+        log.append("harness build with hooks failed, retrying without the tag:\n" + out[-1500:])
+        rc, out = sh(base + ["-o", "bin/" + name, "./cmd/run"], cwd=HARN, env=GOENV)
+        if rc == 0:
+            HOOKS["on"] = False
     if rc != 0:
         log.append("harness build failed (the repository does not compile?):\n" + out)
         return None
     return os.path.join(HARN, "bin", name)
+
+
+HOOKS = {"on": True}
 
 
 def audit_names(prop):
@@ -387,7 +397,7 @@ def main():
         "oracle_failures": (res or {}).get("oracle_failures", 0),
         "exhaustive": bool((res or {}).get("exhaustive", False)),
         "known_findings_reported": known_lines,
-        "notes": (res or {}).get("notes", []),
+        "notes": (res or {}).get("notes", []) + ([] if HOOKS["on"] else ["the library's verification hooks did not compile against this tree: hook-based correspondences (tokens, tree, expansion) were skipped"]),
     }
     if cov["discharged"] < 1:
         cov["discharged"] = 0
